@@ -47,7 +47,6 @@ func (f *Frontend) AcquireAuthBackendName(backend BackendID) (authBackendName st
 	sort.Slice(proxy.BindList, func(i, j int) bool {
 		return proxy.BindList[i].LocalPort < proxy.BindList[j].LocalPort
 	})
-	f.changed = true
 	return bind.AuthBackendName, nil
 }
 
@@ -88,12 +87,31 @@ func hasBackend(backends []string, backend string) bool {
 
 // Changed ...
 func (f *Frontend) Changed() bool {
-	return f.changed
+	return f.changed || f.authProxyChanged()
+}
+
+// authProxyChanged compares the current auth proxy binds with the committed
+// ones. A partial sync removes and acquires again the bind of every changed
+// backend, which should only be seen as a change if the result differs.
+func (f *Frontend) authProxyChanged() bool {
+	if len(f.bindsOld) != len(f.AuthProxy.BindList) {
+		return true
+	}
+	for i, bind := range f.AuthProxy.BindList {
+		if f.bindsOld[i] != *bind {
+			return true
+		}
+	}
+	return false
 }
 
 // Commit ...
 func (f *Frontend) Commit() {
 	f.changed = false
+	f.bindsOld = make([]AuthProxyBind, len(f.AuthProxy.BindList))
+	for i, bind := range f.AuthProxy.BindList {
+		f.bindsOld[i] = *bind
+	}
 }
 
 // String ...
